@@ -1,4 +1,5 @@
 """C04 — names resolve lexically; functions are visible throughout their block (mechanism integrity)."""
+import re
 from ..guards import ne, sh
 from ..mir import parent_fn
 from ..panics import label_names
@@ -159,6 +160,45 @@ def r3_sorted_tables(ctx):
             else:
                 ctx.ok("table|%s" % table, f.where(c.block), "sorted and searched by `%s`" % shape)
     ctx.floor("binary-searched binding tables", searches, 7)
+    # one entry per *node*: an insertion into a pointer-keyed table may be skipped only when that very node is already there
+    npush = 0
+    for fid, f in sorted(ctx.lib.fns.items()):
+        if not fid.startswith(F) or "{closure" in fid:
+            continue
+        for c in f.calls():
+            if not (c.callee or "").endswith("Vec::push"):
+                continue
+            table = sh(ne(f.deep(c.args[0]))).replace("self.", "")
+            if table not in sorts:
+                continue
+            npush += 1
+            ctx.touch(f)
+            keyfield = re.search(r"binding\.(\w+)", sorts[table] or "")
+            keyfield = keyfield.group(1) if keyfield else None
+            guards = [(S, al) for S, al in f.constraints(c.block) if f.switch_info(S)["kind"] in ("call", "bin", "discr", "multi", "place")]
+            if not guards:
+                ctx.ok("insert|%s|unconditional" % table, f.where(c.block), "every recorded node gets an entry")
+                continue
+            bad = None
+            for S, al in guards:
+                si = f.switch_info(S)
+                d = sh(ne(f.deep(f.blocks[S]["t"]["d"])))
+                m = re.match(r"^any\(iter\(self\.%s\),(\{closure#\d+\})::\{(.*)\}\)$" % re.escape(table), d)
+                if not (si["kind"] == "call" and m and al == [0]):
+                    bad = "guarded by `%s`" % d[:60]
+                    break
+                clo = ctx.lib.fns.get(fid + "::" + m.group(1))
+                cmps = [x for x in clo.calls()] if clo else []
+                idents = [x for x in cmps if x.callee in ("std::ptr::eq", "core::ptr::eq") and sh(ne(clo.deep(x.args[0]))) == "binding.%s" % keyfield]
+                others = [x for x in cmps if x not in idents] + [st for b in sorted(clo.live) for st in clo.blocks[b]["s"] if st["rv"]["k"] == "bin" and st["rv"]["op"] in ("Eq", "Ne")] if clo else ["?"]
+                if not idents or others:
+                    bad = "the duplicate test compares %s instead of the identity of the `%s` node" % ([sh(ne(clo.deep_rvalue(st["rv"])))[:40] if isinstance(st, dict) else (st.callee or "?").split("::")[-1] for st in others][:2] if clo else "?", keyfield)
+                    break
+            if bad:
+                ctx.bad("insert|%s|not-by-node" % table, f.where(c.block), "%s skips recording a node in `%s` although that node has no entry yet (%s): the runtime finds no binding for it and resolves it by name on the dynamic scope stack" % (fid.split("::")[-1], table, bad))
+            else:
+                ctx.ok("insert|%s|dedup-by-node" % table, f.where(c.block), "skipped only when ptr::eq(binding.%s, node) already holds" % keyfield)
+    ctx.floor("insertions into pointer-keyed binding tables", npush, 5)
     rs = ctx.need("resolver::Resolver::resolve")
     ctx.touch(rs)
     cb = rs.calls_to("resolver::Resolver::check_block")
